@@ -392,6 +392,33 @@ bk!(c20_nd_means_argmax_1x3, 9, {
     reductions::<Array2<f64>, 1, 3, 3, 1>(nd(1, 3, &a), nd(1, 3, &b), &ai, &bi);
 });
 
+// argmax alone (lighter than the family above, so that it also decides iterator-style rewrites of the scan): every row's answer is
+// the FIRST column holding the row maximum - ties included - on ndarray (1x3, 2x2) exactly as on the dense backend
+fn argmax_only<M: BaseMatrix<f64>, const R: usize, const C: usize, const N: usize>(m: M, ai: &[i32; N]) {
+    let am = m.argmax();
+    vp_assert!(am.len() == R, "C20:argmax-length");
+    for r in 0..R {
+        let mut best = 0usize;
+        for c in 0..C {
+            if ai[r * C + c] > ai[r * C + best] {
+                best = c;
+            }
+        }
+        vp_assert!(am[r] == best, "C20:argmax-first-maximum");
+    }
+    vp_reached!();
+}
+// @vp name=c20_nd_argmax_1x3 prop=C20 tier=quick t=480 features=backends fns=ndarray::argmax size=1x3 dom=lattice(-4..4),f64
+bk!(c20_nd_argmax_1x3, 9, {
+    let (ai, a) = latarr::<3>(-4, 4);
+    argmax_only::<Array2<f64>, 1, 3, 3>(nd(1, 3, &a), &ai);
+});
+// @vp name=c20_nd_argmax_2x2 prop=C20 tier=quick t=480 features=backends fns=ndarray::argmax size=2x2 dom=lattice(-4..4),f64
+bk!(c20_nd_argmax_2x2, 9, {
+    let (ai, a) = latarr::<4>(-4, 4);
+    argmax_only::<Array2<f64>, 2, 2, 4>(nd(2, 2, &a), &ai);
+});
+
 // nalgebra matmul (ndarray's goes through inline assembly in `matrixmultiply` and cannot be translated)
 // @vp name=c20_na_matmul_2x3_3x2 prop=C20 tier=quick mem=30 t=480 features=backends fns=nalgebra::matmul size=2x3*3x2 dom=lattice(-3..3),f64
 bk!(c20_na_matmul_2x3_3x2, 9, {
